@@ -59,6 +59,10 @@ def handle : Handler
   | "pre.endswith", args => str2 (fun s p => outBool (endswith s p)) args
   | "pre.find", args => str2 (fun s p => outInt (find s p)) args
   | "pre.rfind", args => str2 (fun s p => outInt (rfind s p)) args
+  | "pre.rfindfrom", [s, p, i] =>
+    match unhexStr s, unhexStr p, intArg i with
+    | some s, some p, some i => some (outInt (rfindFrom s p i))
+    | _, _, _ => some badArgs
   | "pre.contains", args => str2 (fun s p => outBool (contains s p)) args
   | "pre.partition", args => str2 (fun s p => out3 (partition s p)) args
   | "pre.rpartition", args => str2 (fun s p => out3 (rpartition s p)) args
@@ -73,6 +77,7 @@ def handle : Handler
     str2 (fun s p => outExc (fun (a, b) => hexStr a ++ "|" ++ hexStr b) (splitOnce s p)) args
   | "pre.rsplitonce", args =>
     str2 (fun s p => outExc (fun (a, b) => hexStr a ++ "|" ++ hexStr b) (rsplitOnce s p)) args
+  | "pre.rsplit1", args => str2 (fun s p => outList hexStr (rsplit1 s p)) args
   | "pre.replace", args => str3 (fun s a b => hexStr (replace s a b)) args
   | "pre.stripc", args => str2 (fun s c => hexStr (stripChars s c)) args
   | "pre.lstripc", args => str2 (fun s c => hexStr (lstripChars s c)) args
@@ -125,7 +130,8 @@ def handle : Handler
       | _, _ => badArgs)
   | "pre.dictops", [l, ops] =>
     -- dict built from the `k=v` pairs of l by item assignment, then a sequence of operations:
-    -- `s<k>=<v>` d[k] = v, `d<k>` d.pop(k, None) / del, `p<k>` d.pop(k) (KeyError), `g<k>` d[k] (KeyError);
+    -- `s<k>=<v>` d[k] = v, `d<k>` d.pop(k, None) / del, `p<k>` d.pop(k) (KeyError), `g<k>` d[k] (KeyError),
+    -- `P<k>` d.pop(k, "?"), `i<k>` d.popitem() (KeyError), `o<k>` d = dict(list(d.items()) + [(k, "1"), (k, "2")]);
     -- output: the results of g / p followed by the final items
     some (match (if l == "[]" then some [] else (l.splitOn ",").mapM fun kv =>
         match kv.splitOn "=" with
@@ -153,6 +159,14 @@ def handle : Handler
               match dictPop d o.2.1 with
               | .ok (v, d') => .ok (outs ++ [hexStr v], d')
               | .error e => .error e
+            else if o.1 == 'P' then
+              let r := dictPopD d o.2.1 ['?']
+              .ok (outs ++ [hexStr r.1], r.2)
+            else if o.1 == 'i' then
+              match dictPopitem d with
+              | .ok (kv, d') => .ok (outs ++ [hexStr kv.1 ++ "=" ++ hexStr kv.2], d')
+              | .error e => .error e
+            else if o.1 == 'o' then .ok (outs, dictOfPairs (d ++ [(o.2.1, ['1']), (o.2.1, ['2'])]))
             else
               match dictGetItem d o.2.1 with
               | .ok v => .ok (outs ++ [hexStr v], d)
